@@ -113,6 +113,8 @@ def tlc(
         "-metadir",
         str(meta),
         "-noGenerateSpecTE",
+        "-maxSetSize",
+        "100000000",
         "-config",
         cfgfile,
     ]
